@@ -70,6 +70,37 @@ def behaviours(ctx, num, depth=30):
     return out
 
 
+REQS = ["okA", "okA2", "hashA", "okB", "badchar", "unknown", "star0", "star1", "methfail", "nullphrase", "nullsetting", "longphrase"]
+SIZES = ["neg", "0", "1", "2", "small", "sizeof", "big"]
+
+
+def systematic_behaviours():
+    """every abstract call class of the model (entry point x request class x size class) from every prior state of
+    the object (fresh, holding a success, holding a failure, scribbled): two-step behaviours, complete"""
+    priors = {"fresh": [], "success": [{"fn": "crypt_rn", "o": "o1", "r": "okB", "sz": "sizeof"}],
+              "failure": [{"fn": "crypt_rn", "o": "o1", "r": "unknown", "sz": "sizeof"}], "junk": [{"fn": "scribble", "o": "o1", "r": "-", "sz": "-"}]}
+    out = []
+    for pname, pre in priors.items():
+        beh = []
+        for r in REQS:
+            for sz in SIZES:
+                beh += pre + [{"fn": "crypt_rn", "o": "o1", "r": r, "sz": sz}]
+            beh += pre + [{"fn": "crypt_r", "o": "o1", "r": r, "sz": "-"}]
+        out.append(beh)
+        # crypt() and crypt_ra: the prior state lives in the static object / the handle's block
+        beh = []
+        for r in REQS:
+            prior_static = {"fresh": [], "success": [{"fn": "crypt", "o": "nr", "r": "okB", "sz": "-"}],
+                            "failure": [{"fn": "crypt", "o": "nr", "r": "unknown", "sz": "-"}], "junk": []}[pname]
+            beh += prior_static + [{"fn": "crypt", "o": "nr", "r": r, "sz": "-"}]
+            prior_h = {"fresh": [{"fn": "app_free", "o": "h1", "r": "-", "sz": "-"}], "success": [{"fn": "crypt_ra", "o": "h1", "r": "okB", "sz": "-"}],
+                       "failure": [{"fn": "crypt_ra", "o": "h1", "r": "unknown", "sz": "-"}],
+                       "junk": [{"fn": "app_free", "o": "h1", "r": "-", "sz": "-"}, {"fn": "app_set", "o": "h1", "r": "full", "sz": "exact"}]}[pname]
+            beh += prior_h + [{"fn": "crypt_ra", "o": "h1", "r": r, "sz": "-"}]
+        out.append(beh)
+    return out
+
+
 CHEAP = {"yescrypt": "$y$j65$", "gost_yescrypt": "$gy$j65$", "scrypt": "$7$56..../....", "bcrypt": "$2b$04$",
          "bcrypt_a": "$2a$04$", "bcrypt_y": "$2y$04$", "bcrypt_x": "$2x$04$", "sha512crypt": "$6$rounds=1000$",
          "sha256crypt": "$5$rounds=1000$", "sha1crypt": "$sha1$20$", "sunmd5": "$md5$rounds=1$",
@@ -305,9 +336,10 @@ def c05(ctx):
     quick = ctx.tier == "quick"
     st, tr = model_check(ctx, ["XCryptMC_obj.cfg", "XCryptMC_heap.cfg"] + ([] if quick else ["XCryptMC_obj2.cfg"]))
     cfgev = config_event(ctx)
-    behs = behaviours(ctx, 60 if quick else 600)
+    behs = behaviours(ctx, 60 if quick else 600) + systematic_behaviours()
     events = ctx.run_xcv(concretize(ctx, behs, cfgev["E"]))
     v1 = judge(ctx, events, "walk", cfgev)
+    classes = {(s["fn"], s["r"], s["sz"]) for b in behs for s in b if s["fn"] in ("crypt_rn", "crypt_r", "crypt", "crypt_ra")}
     # the input quantifier: every (selected) byte value at every position of a valid setting
     rng = ctx.rng
     cmds = ["obj 0 0 0"]
@@ -352,6 +384,9 @@ def c05(ctx):
     st, tr = st + st3, tr + tr3
     cov = mc_coverage(ctx, st, tr, [v1, v2, v3], events + ev2 + ev3,
                       {"behaviours_replayed": len(behs), "byte_grid_points": ngrid,
+                       "abstract_call_classes_replayed": len(classes),
+                       "abstract_call_classes_in_model": len(REQS) * len(SIZES) + 3 * len(REQS),
+                       "prior_states_per_class": ["fresh", "holding a success", "holding a failure", "scribbled"],
                        "predicates": ["FailClosed", "NoStale", "Token", "ShortSizes"]})
     return "model_checking", cov, ASSUME_COMMON
 
